@@ -154,6 +154,17 @@ class _Snap(dict):
             self._snaps[(self._rec, key)] = val.tobytes()
 
 
+def _xarg(case, x, allow_list=True):
+    """the evaluation point in the form the case asks for: float64 array (default), integer typed array, list of Python ints
+    (integer valued points only; the derivatives do not depend on how the point is typed)"""
+    form = case.get('xform', 'float64')
+    if form == 'float64':
+        return np.array(x, dtype=float)
+    if form == 'list-int' and allow_list:
+        return [int(v) for v in x]
+    return np.array(x, dtype='int32' if form == 'int32' else 'int64')
+
+
 def prop_drivers(case, stats):
     kind = case['kind']           # 'scalar' or 'vector'
     pts = case['pts'][0]
@@ -203,15 +214,15 @@ def prop_drivers(case, stats):
             x = np.array(x, dtype=float)
             r = refs[tag]
             if kind == 'scalar':
-                res[tag, 'gradient'] = guard(cg.gradient, x.copy())
+                res[tag, 'gradient'] = guard(cg.gradient, _xarg(case, x, allow_list=False))
                 _cmp(res[tag, 'gradient'], r['J'], 'gradient at %s point (graph recorded with %s)' % (tag, rec), stats)
-                res[tag, 'hessian'] = guard(cg.hessian, x.copy())
+                res[tag, 'hessian'] = guard(cg.hessian, _xarg(case, x))
                 _cmp(res[tag, 'hessian'], r['H'], 'hessian at %s point (graph recorded with %s)' % (tag, rec), stats)
-                res[tag, 'hess_vec'] = guard(cg.hess_vec, x.copy(), v.copy())
+                res[tag, 'hess_vec'] = guard(cg.hess_vec, _xarg(case, x), v.copy())
                 _cmp(res[tag, 'hess_vec'], r['H'] @ v, 'hess_vec at %s point (graph recorded with %s)' % (tag, rec), stats)
                 # the same driver again at the same point with another direction (nothing may be carried over from the first call)
                 v2 = v[::-1] * 0.5 + 0.25
-                res[tag, 'hess_vec2'] = guard(cg.hess_vec, x.copy(), v2.copy())
+                res[tag, 'hess_vec2'] = guard(cg.hess_vec, _xarg(case, x), v2.copy())
                 _cmp(res[tag, 'hess_vec2'], r['H'] @ v2, 'second hess_vec at %s point, other direction (graph recorded with %s)' % (tag, rec), stats)
                 if case['listarg']:
                     g = guard(cg.gradient, [x.copy()])
@@ -221,19 +232,19 @@ def prop_drivers(case, stats):
             else:
                 J = r['J']
                 M = J.shape[0]
-                res[tag, 'jacobian'] = guard(cg.jacobian, x.copy())
+                res[tag, 'jacobian'] = guard(cg.jacobian, _xarg(case, x))
                 _cmp(res[tag, 'jacobian'], J, 'jacobian at %s point (graph recorded with %s)' % (tag, rec), stats)
-                res[tag, 'jac_vec'] = guard(cg.jac_vec, x.copy(), v.copy())
+                res[tag, 'jac_vec'] = guard(cg.jac_vec, _xarg(case, x), v.copy())
                 _cmp(res[tag, 'jac_vec'], J @ v, 'jac_vec at %s point (graph recorded with %s)' % (tag, rec), stats)
-                res[tag, 'vec_jac'] = guard(cg.vec_jac, w.copy(), x.copy())
+                res[tag, 'vec_jac'] = guard(cg.vec_jac, w.copy(), _xarg(case, x))
                 _cmp(res[tag, 'vec_jac'], w @ J, 'vec_jac at %s point (graph recorded with %s)' % (tag, rec), stats)
-                res[tag, 'vec_hess'] = guard(cg.vec_hess, w.copy(), x.copy())
+                res[tag, 'vec_hess'] = guard(cg.vec_hess, w.copy(), _xarg(case, x))
                 _cmp(res[tag, 'vec_hess'], r['wH'], 'vec_hess at %s point (graph recorded with %s)' % (tag, rec), stats)
                 if M == N:
-                    res[tag, 'vec_hess_vec'] = guard(cg.vec_hess_vec, w.copy(), x.copy(), v.copy())
+                    res[tag, 'vec_hess_vec'] = guard(cg.vec_hess_vec, w.copy(), _xarg(case, x), v.copy())
                     _cmp(res[tag, 'vec_hess_vec'], r['wH'] @ v, 'vec_hess_vec at %s point (graph recorded with %s)' % (tag, rec), stats)
                     v2 = v[::-1] * 0.5 + 0.25
-                    res[tag, 'vec_hess_vec2'] = guard(cg.vec_hess_vec, w.copy(), x.copy(), v2.copy())
+                    res[tag, 'vec_hess_vec2'] = guard(cg.vec_hess_vec, w.copy(), _xarg(case, x), v2.copy())
                     _cmp(res[tag, 'vec_hess_vec2'], r['wH'] @ v2, 'second vec_hess_vec at %s point, other direction (graph recorded with %s)' % (tag, rec), stats)
         if kind == 'vector' and case.get('X') is not None:
             Jt = guard(cg.jacobian, UTPM(case['X'].copy()))
@@ -313,11 +324,17 @@ def gradient_list_cases(draw, tier):
 
 
 @st.composite
-def driver_cases(draw, tier, kind, first=None, families=None, max_len=8, poly=False):
+def driver_cases(draw, tier, kind, first=None, families=None, max_len=8, poly=False, intpoint=False):
     allow_bcast = not KF.is_open('KF-setitem-broadcast-reverse')
     pr = draw(PG.programs(n_inputs=(1, 1), in_rank=(1,), max_side=4, max_len=max_len, min_len=1, families=families,
                           out=kind, K=4, allow_set_broadcast=allow_bcast, first=first, allow_ones=False, poly=poly))
     case = dict(pr)
+    if intpoint:
+        # integer valued probe points (polynomial programs have no value-dependent preconditions), handed to the drivers as
+        # integer typed arrays / lists of Python ints; v and w keep their fractional parts
+        case['pts'] = [np.rint(pr['pts'][0] * 2.0)]
+        case['xform'] = draw(st.sampled_from(['int64', 'list-int', 'int32', 'int64']))
+        pr = case
     case['kind'] = kind
     case['poly'] = poly
     N = pr['pts'][0].shape[1]
@@ -345,7 +362,7 @@ def _nontrivial(case):
 
 
 def _classes(case):
-    c = ['kind=' + case['kind'], 'N=%d' % case['pts'][0].shape[1], 'recDP=%s' % (tuple(case['recDP']),)]
+    c = ['kind=' + case['kind'], 'N=%d' % case['pts'][0].shape[1], 'recDP=%s' % (tuple(case['recDP']),), 'point=' + case.get('xform', 'float64')]
     if case.get('X') is not None:
         c.append('jacobian-of-UTPM')
     c += PG.features(case)
@@ -369,6 +386,11 @@ def buckets(tier):
                          (lambda kind=kind: driver_cases(tier, kind, families=PG.FAMILIES_POLY, max_len=7, poly=True)),
                          prop_drivers, {'quick': 120, 'thorough': 900}, nontrivial=_nontrivial, classes=_classes,
                          shards={'quick': 4, 'thorough': 8}, weight=6.0))
+    for kind in ('scalar', 'vector'):
+        bl.append(Bucket('drivers-intpoint:' + kind,
+                         (lambda kind=kind: driver_cases(tier, kind, families=PG.FAMILIES_POLY, max_len=6, poly=True, intpoint=True)),
+                         prop_drivers, {'quick': 80, 'thorough': 600}, nontrivial=_nontrivial, classes=_classes,
+                         shards={'quick': 2, 'thorough': 6}, weight=6.0))
     bl.append(Bucket('gradient-list', (lambda: gradient_list_cases(tier)), prop_gradient_list, {'quick': 120, 'thorough': 800},
                      nontrivial=(lambda case: 'nonlinear' in PG.features(case)),
                      classes=(lambda case: ['kind=scalar-list'] + PG.features(case)), shards={'quick': 4, 'thorough': 8}, weight=4.0))
